@@ -14,6 +14,7 @@ Proof. exact request_step_spec. Qed.
 Print Assumptions C10_step.
 
 Theorem C10_trace : forall T K c input script,
+  c_tls c = None ->
   match c_sess_auth c with
   | Some false => session T K c input script = [ESessAuth false; EClose CloseError]
   | Some true => exists t, session T K c input script = ESessAuth true :: t /\ trace_ok c t
